@@ -11,6 +11,9 @@ CONSTANTS
   OkayRequired = 3
   Budgets = {0}
   MaxStop = 1
+  Transport = "udp"
+  Redial = "on_failure"
+  MaxReset = 0
   MaxJoin = 1
   UOrder <- MCOrder
 VIEW View
